@@ -202,6 +202,13 @@ func goExec(line string) (out string) {
 	// entry point and deliver the plaintext in Write calls of those lengths
 	// (the rest in a last one).  The model ignores the token: by C13's theorems
 	// the packets do not depend on the split.
+	// optional trailing "ep=<all|arm|armstream>": which entry-point form an
+	// open/verify request goes through (default: the binary streaming form)
+	if len(t) > 1 && strings.HasPrefix(t[len(t)-1], "ep=") {
+		currentEP = t[len(t)-1][3:]
+		t = t[:len(t)-1]
+		defer func() { currentEP = "" }()
+	}
 	// (the global is written only by requests that carry the token — the
 	// concurrent workload of C20 never does — and reset when they return)
 	if len(t) > 1 && strings.HasPrefix(t[len(t)-1], "w=") {
@@ -414,7 +421,25 @@ func execEncOpen(t []string) string {
 	log := &keys.Log{}
 	ring := parseRing(t[2], t[3], t[4], t[5], t[6], log)
 	msg := unhex(t[7])
-	mki, r, err := saltpack.NewDecryptStream(parseValidator(t[1]), msgReader(msg), ring)
+	var mki *saltpack.MessageKeyInfo
+	var r io.Reader
+	var err error
+	switch currentEP {
+	case "all":
+		var pt []byte
+		mki, pt, err = saltpack.Open(parseValidator(t[1]), msg, ring)
+		return allAtOnce(err, pt, log, func() string { return mkiString(mki) })
+	case "arm":
+		arm, _ := saltpack.Armor62Seal(msg, saltpack.MessageTypeEncryption, "")
+		var pt []byte
+		mki, pt, _, err = saltpack.Dearmor62DecryptOpen(parseValidator(t[1]), arm, ring)
+		return allAtOnce(err, pt, log, func() string { return mkiString(mki) })
+	case "armstream":
+		arm, _ := saltpack.Armor62Seal(msg, saltpack.MessageTypeEncryption, "")
+		mki, r, _, err = saltpack.NewDearmor62DecryptStream(parseValidator(t[1]), readerFor([]byte(arm)), ring)
+	default:
+		mki, r, err = saltpack.NewDecryptStream(parseValidator(t[1]), msgReader(msg), ring)
+	}
 	if err != nil {
 		return fmt.Sprintf("res %s rel=- calls=%s -", script.Class(err), log.String())
 	}
@@ -474,7 +499,31 @@ func execScOpen(t []string) string {
 	log := &keys.Log{}
 	ring := parseRing(t[1], t[2], t[3], t[4], t[5], log)
 	msg := unhex(t[7])
-	spk, r, err := saltpack.NewSigncryptOpenStream(msgReader(msg), ring, parseResolver(t[6]))
+	var spk saltpack.SigningPublicKey
+	var r io.Reader
+	var err error
+	sndOf := func() string {
+		if spk == nil {
+			return "sender=anon"
+		}
+		return "sender=" + keys.Hex(spk.ToKID())
+	}
+	switch currentEP {
+	case "all":
+		var pt []byte
+		spk, pt, err = saltpack.SigncryptOpen(msg, ring, parseResolver(t[6]))
+		return strings.Replace(allAtOnce(err, pt, log, sndOf), " -", " sender=-", 1)
+	case "arm":
+		arm, _ := saltpack.Armor62Seal(msg, saltpack.MessageTypeEncryption, "")
+		var pt []byte
+		spk, pt, _, err = saltpack.Dearmor62SigncryptOpen(arm, ring, parseResolver(t[6]))
+		return strings.Replace(allAtOnce(err, pt, log, sndOf), " -", " sender=-", 1)
+	case "armstream":
+		arm, _ := saltpack.Armor62Seal(msg, saltpack.MessageTypeEncryption, "")
+		spk, r, _, err = saltpack.NewDearmor62SigncryptOpenStream(readerFor([]byte(arm)), ring, parseResolver(t[6]))
+	default:
+		spk, r, err = saltpack.NewSigncryptOpenStream(msgReader(msg), ring, parseResolver(t[6]))
+	}
 	if err != nil {
 		return fmt.Sprintf("res %s rel=- calls=%s sender=-", script.Class(err), log.String())
 	}
@@ -525,7 +574,31 @@ func execSign(t []string) string {
 // sig.verify valid lsig msg
 func execVerify(t []string) string {
 	ring := parseRing("-", "none", "nil", "nil", t[2], nil)
-	skey, r, err := saltpack.NewVerifyStream(parseValidator(t[1]), msgReader(unhex(t[3])), ring)
+	var skey saltpack.SigningPublicKey
+	var r io.Reader
+	var err error
+	atOnce := func(pt []byte) string {
+		if err != nil {
+			return fmt.Sprintf("res %s rel=- signer=-", script.Class(err))
+		}
+		return fmt.Sprintf("res ok rel=%s signer=%s", keys.Hex(pt), keys.Hex(skey.ToKID()))
+	}
+	switch currentEP {
+	case "all":
+		var pt []byte
+		skey, pt, err = saltpack.Verify(parseValidator(t[1]), unhex(t[3]), ring)
+		return atOnce(pt)
+	case "arm":
+		arm, _ := saltpack.Armor62Seal(unhex(t[3]), saltpack.MessageTypeAttachedSignature, "")
+		var pt []byte
+		skey, pt, _, err = saltpack.Dearmor62Verify(parseValidator(t[1]), arm, ring)
+		return atOnce(pt)
+	case "armstream":
+		arm, _ := saltpack.Armor62Seal(unhex(t[3]), saltpack.MessageTypeAttachedSignature, "")
+		skey, r, _, err = saltpack.NewDearmor62VerifyStream(parseValidator(t[1]), readerFor([]byte(arm)), ring)
+	default:
+		skey, r, err = saltpack.NewVerifyStream(parseValidator(t[1]), msgReader(unhex(t[3])), ring)
+	}
 	if err != nil {
 		return fmt.Sprintf("res %s rel=- signer=-", script.Class(err))
 	}
@@ -621,4 +694,15 @@ func (p *pieceReader) Read(q []byte) (int, error) {
 	copy(q, p.b[:n])
 	p.b = p.b[n:]
 	return n, nil
+}
+
+var currentEP string
+
+// allAtOnce renders the answer of an all-at-once entry point in the format of
+// the streaming ones: nothing is released unless the call succeeded.
+func allAtOnce(err error, pt []byte, log *keys.Log, info func() string) string {
+	if err != nil {
+		return fmt.Sprintf("res %s rel=- calls=%s -", script.Class(err), log.String())
+	}
+	return fmt.Sprintf("res ok rel=%s calls=%s %s", keys.Hex(pt), log.String(), info())
 }
